@@ -206,3 +206,46 @@ def stat_check(inp):
 
 Oracle(SP + "StatisticalContinuumSampler.sample_from_continuum", stat_cases, stat_check)
 Oracle(SP + "StatisticalContinuumSampler.init_sampling", stat_cases, stat_check)
+
+
+# ---- the two ASSUMED contracts the proof of ShuffleContinuumSampler.sample_from_continuum rests on, checked clause by clause on the real code
+def assumed_cases(rng, tier):
+    n = 120 if tier == "quick" else 1500
+    for k in range(n):
+        segs, x = [], rng.uniform(-50, 50)
+        for _ in range(rng.randint(1, 5)):
+            ln = rng.choice([0.001, 0.3, 1.0, 7.5, 40.0]) * rng.uniform(0.5, 1.5)
+            segs.append([x, x + ln])
+            x += ln + rng.choice([0.0, 0.2, 5.0])
+        if rng.random() < 0.3:
+            segs = [[float(int(a)), float(int(a) + max(1, int(b - a)))] for a, b in segs]      # integer timestamps
+        yield {"segments": segs, "pivot_type": rng.choice(["float_pivot", "int_pivot"]), "seed": rng.randrange(10 ** 6), "ints": rng.random() < 0.3}
+
+
+def assumed_check(inp):
+    pa = pkg()
+    import numpy as np
+    from pyannote.core import Segment
+    from pygamma_agreement.sampler import ShuffleContinuumSampler
+    s = ShuffleContinuumSampler(pivot_type=inp["pivot_type"])
+    conv = (lambda v: int(v)) if inp["ints"] and all(float(a).is_integer() and float(b).is_integer() for a, b in inp["segments"]) else float
+    segs = [Segment(conv(a), conv(b)) for a, b in inp["segments"]]
+    np.random.seed(inp["seed"])
+    try:
+        r = s._random_from_segments(list(segs))
+    except Exception as ex:   # noqa
+        return fail("assumed: _random_from_segments returns on a non-empty list of positive-length segments", inp, repr(ex), "a pivot")
+    if inp["pivot_type"] == "float_pivot" and not any(a <= r <= b for a, b in inp["segments"]):
+        return fail("assumed: a float pivot lies in one of the given segments", inp, float(r), inp["segments"])
+    if inp["pivot_type"] == "int_pivot" and float(r) != int(r):
+        return fail("assumed: an integer pivot is a whole number", inp, float(r), "a whole number")
+    # avg_length_unit > 0 on a continuum with a valid unit
+    c = pa.Continuum()
+    for k, (a, b) in enumerate(inp["segments"]):
+        c.add(f"a{k % 2}", Segment(a, b), "x")
+    if not c.avg_length_unit > 0:
+        return fail("assumed: avg_length_unit is positive on a continuum with a valid unit", inp, float(c.avg_length_unit), "> 0")
+    return None
+
+
+Oracle(SP + "ShuffleContinuumSampler._random_from_segments#assumed-contract", assumed_cases, assumed_check)
